@@ -445,6 +445,26 @@ def check_concrete(op, nodes, di, bi, S, extra=None, form="set"):
     rec["bad"] = (not native_matches(op, got, want)) or before != after
     if before != after:
         rec["observed"] += " [receiver modified]"
+    elif form == "set" and op in ("subgraph", "remove_in_edges", "remove_out_edges", "remove_nodes_from", "moralize"):
+        # "returns a new graph": editing the result must not show in the receiver
+        from y0.dsl import Variable
+
+        try:
+            r = g.moralize() if op == "moralize" else getattr(g, op)(set(S))
+            p, q = Variable("_fresh1"), Variable("_fresh2")
+            r.add_directed_edge(p, q)
+            r.add_undirected_edge(p, q)
+            keep = list(r.nodes())
+            if len(keep) >= 4:
+                r.add_directed_edge(keep[0], keep[1])
+                r.add_undirected_edge(keep[0], keep[1])
+            later = (set(g.nodes()), set(g.directed.edges()), set(g.undirected.edges()), set(g.undirected.nodes()))
+            if later != before:
+                rec["bad"] = True
+                rec["observed"] += " [the result shares state with the receiver: editing the result changed the receiver]"
+        except Exception as e:  # noqa: BLE001
+            rec["bad"] = True
+            rec["observed"] += f" [editing the result raised {type(e).__name__}: {short(e, 80)}]"
     return rec
 
 
@@ -511,9 +531,9 @@ def work(job):
     t0 = time.time()
     try:
         q = run_symbolic(op, N)
-    except Unsupported as e:
+    except Exception as e:  # noqa: BLE001 - Unsupported, or a construct the models do not know (AttributeError ...)
         out["status"] = "unsupported"
-        out["why"] = str(e)
+        out["why"] = str(e) if isinstance(e, Unsupported) else f"{type(e).__name__}: {e}"
         out["validated"], out["native_bad"] = native_corpus(op, max(validate_n, 3))
         return out
     out["encode_s"] = time.time() - t0
